@@ -711,10 +711,7 @@ def coverage_pass(docs_list, max_docs=400):
     hits = set()
     mon = sys.monitoring
     TOOL = 3
-    try:
-        mon.use_tool_id(TOOL, "verif-regenleaf")
-    except ValueError:
-        pass
+    vlib.claim_tool(TOOL, "verif-regenleaf")
 
     def ev(code, line):
         s = lines.get(code.co_filename)
